@@ -119,7 +119,12 @@ def main():
                 if rc != 0:
                     rec["result"] = "does-not-compile"
                 else:
-                    rc, out = sh("flock /tmp/mut-suite.lock go test -vet=off -count=1 -timeout 90s . ./pkg/...", cwd=WT, timeout=600)
+                    for attempt in range(8):
+                        rc, out = sh("flock /tmp/mut-suite.lock go test -vet=off -count=1 -timeout 90s . ./pkg/...", cwd=WT, timeout=600)
+                        if rc != 0 and "address already in use" in out:
+                            time.sleep(25)  # somebody else runs the repository suite (fixed TCP port): retry
+                            continue
+                        break
                     if rc != 0 and "address already in use" in out:
                         print("port of the repository suite is taken: aborting", flush=True)
                         open(p, "w").write(orig)
